@@ -1,89 +1,318 @@
-From Coq Require Import List ZArith NArith Bool Lia.
+From Coq Require Import List ZArith NArith Bool Arith Lia.
 From XV Require Import Lib.Sx Model.Manager.
 Import ListNotations.
 
-(* counters move together: one PostConnect and one receiver per session *)
-Definition m_inv (s : mst) : Prop :=
-  m_post s = m_sessions s /\ m_recv s = m_sessions s /\ m_resumed s <= m_sessions s /\
-  (m_phase s = MUp -> m_sessions s >= 1).
+(* ---- the invariant of the code as it is ---- *)
+(* one PostConnect and one receiver per session handed over; no session ended by the client
+   itself, none created after Run returned; at most one retry loop, and exactly when the
+   manager is retrying; the one running receiver reads the current connection *)
+Definition inv (s : mst) : Prop :=
+  m_post s = m_sessions s /\ m_recv s = m_sessions s /\ m_selfclosed s = 0 /\ m_late s = 0 /\
+  m_resumed s <= m_sessions s /\ m_sessions s <= m_estab s /\ m_estab s <= m_conns s /\
+  match m_phase s with
+  | MIdle => m_loops s = 0 /\ m_live s = [] /\ m_sessions s = 0
+  | MUp => m_loops s = 0 /\ m_live s = [m_conns s] /\ 1 <= m_sessions s
+  | MRetry => m_loops s = 1 /\ m_live s = []
+  | MDead | MReturned => m_loops s = 0 /\ m_live s = []
+  end.
 
-Lemma step_inv s e : m_inv s -> m_inv (m_step s e).
+Lemma init_inv sm : inv (m_init sm).
+Proof. unfold inv; cbn. repeat split; lia. Qed.
+
+Ltac inv_tac :=
+  repeat match goal with
+         | |- context [if ?b then _ else _] => destruct b
+         end; cbn; repeat split; try lia; try reflexivity.
+
+Lemma step_inv s e : inv s -> inv (m_step repaired s e).
 Proof.
-  intros (H1 & H2 & H3 & H4). unfold m_step.
-  destruct (m_phase s) eqn:P; destruct e as [[| | |r]|[| | |]]; cbn; unfold m_inv; cbn;
-    repeat split; try lia; try (intros; discriminate); try (destruct r; lia); try (intros; lia);
-    try (rewrite P; intros; discriminate); try (rewrite P; auto).
+  destruct s as [ph sm held loops conns estab sess rs post recv live fl sc late].
+  unfold inv; cbn [m_phase m_sm m_held m_loops m_conns m_estab m_sessions m_resumed m_post m_recv
+                   m_live m_failed m_selfclosed m_late].
+  intros (H1 & H2 & H3 & H4 & H5 & H6 & H7 & Hp).
+  destruct ph; decompose [and] Hp; clear Hp; subst;
+    destruct e as [[|[] d|g|g]|[]| |]; cbn; unfold resumes; cbn; inv_tac.
 Qed.
 
-Lemma run_inv es : forall s, m_inv s -> m_inv (m_run s es).
+Lemma run_inv es : forall s, inv s -> inv (m_run repaired s es).
 Proof.
   induction es as [|e es IH]; intros s H; [exact H|]. cbn. apply IH. apply step_inv. exact H.
 Qed.
 
-Lemma init_inv : m_inv m_init.
-Proof. unfold m_inv; cbn. repeat split; try lia. intros; discriminate. Qed.
+Lemma reachable_inv sm es : inv (m_run repaired (m_init sm) es).
+Proof. apply run_inv, init_inv. Qed.
 
-(* failed attempts keep the loop retrying without creating anything *)
-Lemma retry_fails s fails :
-  m_phase s = MRetry -> forallb is_fail fails = true ->
-  let s' := m_run s (map EAttempt fails) in
-  m_phase s' = MRetry /\ m_sessions s' = m_sessions s /\ m_post s' = m_post s /\
-  m_recv s' = m_recv s /\ m_resumed s' = m_resumed s /\ m_failed s' = m_failed s + length fails.
+(* ---- between a loss and the successful attempt ---- *)
+Lemma noise_step s e :
+  inv s -> m_phase s = MRetry -> is_noise e = true ->
+  let s' := m_step repaired s e in
+  m_phase s' = MRetry /\ m_sessions s' = m_sessions s /\ m_post s' = m_post s /\ m_recv s' = m_recv s /\
+  m_resumed s' = m_resumed s /\ m_sm s' = m_sm s /\ m_held s' = held_after (m_sm s) (m_held s) [e].
 Proof.
-  revert s; induction fails as [|a fails IH]; intros s P Hf; cbn zeta.
-  - cbn. repeat split; try assumption; lia.
-  - cbn [forallb] in Hf. apply andb_true_iff in Hf as [Ha Hf].
-    cbn [map m_run fold_left]. assert (E : m_step s (EAttempt a) = failed s).
-    { unfold m_step. rewrite P. destruct a; try discriminate; reflexivity. }
-    rewrite E. specialize (IH (failed s) P Hf). cbn zeta in IH. unfold m_run in *.
-    destruct IH as (I1 & I2 & I3 & I4 & I5 & I6). cbn [failed m_sessions m_post m_recv m_resumed m_failed] in *.
-    repeat split; try assumption. cbn [length]. lia.
+  destruct s as [ph sm held loops conns estab sess rs post recv live fl sc late].
+  unfold inv; cbn [m_phase m_sm m_held m_loops m_conns m_estab m_sessions m_resumed m_post m_recv
+                   m_live m_failed m_selfclosed m_late].
+  intros (H1 & H2 & H3 & H4 & H5 & H6 & H7 & Hp) P Hn. subst ph. destruct Hp as [-> ->].
+  destruct e as [[|[] d|g|g]|[]| |]; try discriminate Hn; cbn; repeat split; destruct d; reflexivity.
 Qed.
 
-(* each loss of an established session: exactly one new session once an attempt succeeds *)
-Lemma one_session_per_loss s t fails r :
-  m_phase s = MUp -> is_loss t = true -> forallb is_fail fails = true ->
-  let s' := m_run s (ETerm t :: map EAttempt fails ++ [EAttempt (AOk r)]) in
-  m_phase s' = MUp /\ m_sessions s' = S (m_sessions s) /\ m_post s' = S (m_post s) /\
-  m_recv s' = S (m_recv s) /\ m_resumed s' = (if r then S (m_resumed s) else m_resumed s).
+Lemma held_after_app sm h a b : held_after sm h (a ++ b) = held_after sm (held_after sm h a) b.
 Proof.
-  intros P Ht Hf. cbn zeta.
-  assert (E1 : m_step s (ETerm t) = phase s MRetry).
-  { unfold m_step. rewrite P. destruct t; try discriminate; reflexivity. }
-  unfold m_run. cbn [fold_left]. rewrite E1. rewrite fold_left_app.
-  pose proof (retry_fails (phase s MRetry) fails eq_refl Hf) as H. cbn zeta in H. unfold m_run in H.
-  destruct H as (I1 & I2 & I3 & I4 & I5 & I6).
-  cbn [fold_left]. set (q := fold_left m_step (map EAttempt fails) (phase s MRetry)) in *.
-  unfold m_step. rewrite I1. cbn [up m_phase m_sessions m_post m_recv m_resumed].
-  cbn [phase m_sessions m_post m_recv m_resumed] in *.
-  rewrite I2, I3, I4, I5. repeat split; reflexivity.
+  revert h; induction a as [|e a IH]; intros h; [reflexivity|].
+  destruct e as [[|p d|g|g]|t| |]; cbn; try apply IH. destruct d; apply IH.
 Qed.
 
-(* a permanent error ends the retry loop: no further session whatever happens next,
-   until Stop makes Run return *)
-Lemma dead_stays es : forall s, m_phase s = MDead \/ m_phase s = MReturned ->
-  m_sessions (m_run s es) = m_sessions s /\ m_post (m_run s es) = m_post s /\
-  (m_phase (m_run s es) = MDead \/ m_phase (m_run s es) = MReturned).
+Lemma noise_keeps noise : forall s,
+  inv s -> m_phase s = MRetry -> forallb is_noise noise = true ->
+  let s' := m_run repaired s noise in
+  inv s' /\ m_phase s' = MRetry /\ m_sessions s' = m_sessions s /\ m_post s' = m_post s /\
+  m_recv s' = m_recv s /\ m_resumed s' = m_resumed s /\ m_sm s' = m_sm s /\
+  m_held s' = held_after (m_sm s) (m_held s) noise.
 Proof.
-  induction es as [|e es IH]; intros s P; [cbn; auto|].
-  cbn [m_run fold_left]. 
-  assert (H : (m_phase (m_step s e) = MDead \/ m_phase (m_step s e) = MReturned) /\
-              m_sessions (m_step s e) = m_sessions s /\ m_post (m_step s e) = m_post s).
-  { unfold m_step. destruct P as [P|P]; rewrite P; destruct e as [[| | |r]|[| | |]]; cbn; rewrite ?P; auto. }
-  destruct H as (Hp & Hs & Hq). specialize (IH _ Hp). unfold m_run in IH.
-  destruct IH as (I1 & I2 & I3). rewrite I1, I2, Hs, Hq. auto.
+  induction noise as [|e noise IH]; intros s I P Hn; cbn zeta.
+  - cbn. split; [exact I|]. split; [exact P|]. repeat split; reflexivity.
+  - cbn [forallb] in Hn. apply andb_true_iff in Hn as [He Hn].
+    destruct (noise_step s e I P He) as (A1 & A2 & A3 & A4 & A5 & A6 & A7).
+    specialize (IH (m_step repaired s e) (step_inv s e I) A1 Hn). cbn zeta in IH.
+    destruct IH as (B0 & B1 & B2 & B3 & B4 & B5 & B6 & B7).
+    cbn [m_run fold_left]. unfold m_run in *.
+    split; [exact B0|]. split; [exact B1|]. repeat split; try congruence.
+    rewrite B7, A6, A7. change (e :: noise) with ([e] ++ noise). rewrite held_after_app. reflexivity.
 Qed.
 
-Lemma permanent_stops s es :
+(* each loss of an established session: exactly one new session once an attempt succeeds,
+   whatever failed attempts, failing hooks, leftover readers and old receivers come in between *)
+Lemma one_session_per_loss s t noise g :
+  inv s -> m_phase s = MUp -> is_loss t = true -> forallb is_noise noise = true ->
+  let s' := m_run repaired s (ETerm t :: noise ++ [EAttempt (AOk g)]) in
+  inv s' /\ m_phase s' = MUp /\ m_loops s' = 0 /\ m_live s' = [m_conns s'] /\
+  m_sessions s' = S (m_sessions s) /\ m_post s' = S (m_post s) /\ m_recv s' = S (m_recv s) /\
+  m_resumed s' = (if m_sm s && held_after (m_sm s) (m_held s) noise && g
+                  then S (m_resumed s) else m_resumed s).
+Proof.
+  intros I P Ht Hn. cbn zeta.
+  assert (I1 := step_inv s (ETerm t) I).
+  assert (P1 : m_phase (m_step repaired s (ETerm t)) = MRetry).
+  { destruct t; try discriminate Ht; cbn; rewrite P; reflexivity. }
+  assert (K : m_sessions (m_step repaired s (ETerm t)) = m_sessions s /\
+              m_post (m_step repaired s (ETerm t)) = m_post s /\
+              m_recv (m_step repaired s (ETerm t)) = m_recv s /\
+              m_resumed (m_step repaired s (ETerm t)) = m_resumed s /\
+              m_sm (m_step repaired s (ETerm t)) = m_sm s /\
+              m_held (m_step repaired s (ETerm t)) = m_held s).
+  { destruct t; try discriminate Ht; cbn; rewrite P; cbn; repeat split; reflexivity. }
+  destruct K as (K1 & K2 & K3 & K4 & K5 & K6).
+  unfold m_run. cbn [fold_left]. rewrite fold_left_app.
+  destruct (noise_keeps noise _ I1 P1 Hn) as (J0 & J1 & J2 & J3 & J4 & J5 & J6 & J7).
+  unfold m_run in *. set (q := fold_left (m_step repaired) noise (m_step repaired s (ETerm t))) in *.
+  cbn [fold_left].
+  assert (I2 := step_inv q (EAttempt (AOk g)) J0).
+  split; [exact I2|].
+  destruct q as [ph sm held loops conns estab sess rs post recv live fl sc late].
+  unfold inv in J0; cbn [m_phase m_sm m_held m_loops m_conns m_estab m_sessions m_resumed m_post m_recv
+                   m_live m_failed m_selfclosed m_late] in *.
+  destruct J0 as (_ & _ & _ & _ & _ & _ & _ & Hp). subst ph. destruct Hp as [-> ->].
+  cbn. unfold resumes. cbn. rewrite J2, J3, J4, J5, J6, J7, K1, K2, K3, K4, K5, K6.
+  repeat split; reflexivity.
+Qed.
+
+(* ---- repeated k times ---- *)
+Lemma rounds_from rounds : forall s,
+  inv s -> m_phase s = MUp -> forallb round_ok rounds = true ->
+  let s' := m_run repaired s (flat_map round_events rounds) in
+  inv s' /\ m_phase s' = MUp /\ m_sessions s' = m_sessions s + length rounds /\
+  m_post s' = m_post s + length rounds /\ m_recv s' = m_recv s + length rounds.
+Proof.
+  induction rounds as [|[[t noise] g] rounds IH]; intros s I P H; cbn zeta.
+  - cbn. split; [exact I|]. split; [exact P|]. repeat split; lia.
+  - cbn [forallb round_ok] in H. apply andb_true_iff in H as [H1 H].
+    apply andb_true_iff in H1 as [Ht Hn].
+    cbn [flat_map round_events]. unfold m_run. rewrite fold_left_app.
+    destruct (one_session_per_loss s t noise g I P Ht Hn) as (A0 & A1 & _ & _ & A2 & A3 & A4 & _).
+    unfold m_run in A0, A1, A2, A3, A4.
+    set (q := fold_left (m_step repaired) (ETerm t :: noise ++ [EAttempt (AOk g)]) s) in *.
+    destruct (IH q A0 A1 H) as (B0 & B1 & B2 & B3 & B4). unfold m_run in *.
+    split; [exact B0|]. split; [exact B1|]. cbn [length]. repeat split; lia.
+Qed.
+
+Lemma k_rounds sm g0 rounds :
+  forallb round_ok rounds = true ->
+  let s := m_run repaired (m_init sm) (EAttempt (AOk g0) :: flat_map round_events rounds) in
+  m_phase s = MUp /\ m_sessions s = S (length rounds) /\ m_post s = S (length rounds) /\
+  m_recv s = S (length rounds) /\ m_live s = [m_conns s] /\ m_loops s = 0 /\ m_selfclosed s = 0.
+Proof.
+  intros H. cbn zeta. unfold m_run. cbn [fold_left].
+  assert (I0 : inv (m_step repaired (m_init sm) (EAttempt (AOk g0)))) by (apply step_inv, init_inv).
+  destruct (rounds_from rounds _ I0 eq_refl H) as (B0 & B1 & B2 & B3 & B4). unfold m_run in *.
+  set (q := fold_left _ _ _) in *. cbn in B2, B3, B4.
+  unfold inv in B0. rewrite B1 in B0. destruct B0 as (_ & _ & C3 & _ & _ & _ & _ & C8 & C9 & _).
+  repeat split; try assumption.
+Qed.
+
+(* ---- Stop ---- *)
+Lemma stop_returns v s : m_phase (m_step v s (ETerm TStop)) = MReturned.
+Proof. reflexivity. Qed.
+
+(* nobody dials, nobody listens for losses: nothing changes but Run's return *)
+Definition quiet (s : mst) : Prop :=
+  (m_phase s = MDead \/ m_phase s = MReturned) /\ m_loops s = 0.
+
+Lemma quiet_step s e : quiet s ->
+  quiet (m_step repaired s e) /\ m_sessions (m_step repaired s e) = m_sessions s /\
+  m_post (m_step repaired s e) = m_post s /\ m_recv (m_step repaired s e) = m_recv s /\
+  m_conns (m_step repaired s e) = m_conns s /\ m_estab (m_step repaired s e) = m_estab s /\
+  (m_phase s = MReturned -> m_phase (m_step repaired s e) = MReturned).
+Proof.
+  destruct s as [ph sm held loops conns estab sess rs post recv live fl sc late]. unfold quiet.
+  cbn [m_phase m_loops]. intros [[-> | ->] ->];
+    destruct e as [[|[] d|g|g]|[]| |]; cbn; repeat split; auto; try discriminate.
+Qed.
+
+Lemma quiet_run es : forall s, quiet s ->
+  let s' := m_run repaired s es in
+  quiet s' /\ m_sessions s' = m_sessions s /\ m_post s' = m_post s /\ m_recv s' = m_recv s /\
+  m_conns s' = m_conns s /\ m_estab s' = m_estab s /\ (m_phase s = MReturned -> m_phase s' = MReturned).
+Proof.
+  induction es as [|e es IH]; intros s Q; cbn zeta; [cbn; split; [exact Q|]; repeat split; auto|].
+  destruct (quiet_step s e Q) as (Q1 & A1 & A2 & A3 & A4 & A5 & A6).
+  destruct (IH _ Q1) as (Q2 & B1 & B2 & B3 & B4 & B5 & B6). cbn [m_run fold_left]. unfold m_run in *.
+  split; [exact Q2|]. repeat split; try congruence. intros P. apply B6, A6, P.
+Qed.
+
+(* Stop is final, in every phase: Run has returned and no connection is made, no session
+   created, no callback run afterwards, whatever the network and the server do *)
+Lemma stop_is_final s es :
+  let s0 := m_step repaired s (ETerm TStop) in
+  let s' := m_run repaired s0 es in
+  m_phase s' = MReturned /\ m_sessions s' = m_sessions s /\ m_post s' = m_post s /\
+  m_recv s' = m_recv s /\ m_conns s' = m_conns s /\ m_estab s' = m_estab s.
+Proof.
+  cbn zeta.
+  assert (Q : quiet (m_step repaired s (ETerm TStop))) by (split; [right|]; reflexivity).
+  destruct (quiet_run es _ Q) as (_ & B1 & B2 & B3 & B4 & B5 & B6).
+  repeat split; try assumption. apply B6. reflexivity.
+Qed.
+
+(* ---- a permanent error ends the retry loop ---- *)
+Lemma permanent_stops s d es :
+  inv s -> m_phase s = MRetry ->
+  let s' := m_run repaired s (EAttempt (AFail true d) :: es) in
+  m_sessions s' = m_sessions s /\ m_post s' = m_post s /\ m_recv s' = m_recv s /\
+  m_conns s' = S (m_conns s) /\ m_estab s' = m_estab s /\
+  (m_phase s' = MDead \/ m_phase s' = MReturned).
+Proof.
+  intros I P. cbn zeta. cbn [m_run fold_left].
+  assert (Q : quiet (m_step repaired s (EAttempt (AFail true d))) /\
+              m_sessions (m_step repaired s (EAttempt (AFail true d))) = m_sessions s /\
+              m_post (m_step repaired s (EAttempt (AFail true d))) = m_post s /\
+              m_recv (m_step repaired s (EAttempt (AFail true d))) = m_recv s /\
+              m_conns (m_step repaired s (EAttempt (AFail true d))) = S (m_conns s) /\
+              m_estab (m_step repaired s (EAttempt (AFail true d))) = m_estab s).
+  { destruct s as [ph sm held loops conns estab sess rs post recv live fl sc late].
+    unfold inv in I; cbn [m_phase m_loops m_live] in *. subst ph.
+    destruct I as (_ & _ & _ & _ & _ & _ & _ & -> & ->). unfold quiet. cbn. repeat split; auto. }
+  destruct Q as (Q & A1 & A2 & A3 & A4 & A5).
+  destruct (quiet_run es _ Q) as (Q2 & B1 & B2 & B3 & B4 & B5 & _). unfold m_run in *.
+  repeat split; try congruence. apply Q2.
+Qed.
+
+(* ---- the same statements are false for the code as it was ---- *)
+Definition with_stale : mcode :=
+  {| v_stale_reports := true; v_old_recv_acts := false; v_hook_fail_starts := false;
+     v_stop_leaves_loop := false; v_resume_no_recv := false |}.
+Definition with_old_recv : mcode :=
+  {| v_stale_reports := false; v_old_recv_acts := true; v_hook_fail_starts := false;
+     v_stop_leaves_loop := false; v_resume_no_recv := false |}.
+Definition with_hook_start : mcode :=
+  {| v_stale_reports := false; v_old_recv_acts := false; v_hook_fail_starts := true;
+     v_stop_leaves_loop := false; v_resume_no_recv := false |}.
+Definition with_stop_leak : mcode :=
+  {| v_stale_reports := false; v_old_recv_acts := false; v_hook_fail_starts := false;
+     v_stop_leaves_loop := true; v_resume_no_recv := false |}.
+Definition with_no_recv : mcode :=
+  {| v_stale_reports := false; v_old_recv_acts := false; v_hook_fail_starts := false;
+     v_stop_leaves_loop := false; v_resume_no_recv := true |}.
+
+(* D17: one loss, one failed attempt whose reader reports: two loops, two sessions for the loss *)
+Lemma stale_reader_refuted :
+  let s := m_run with_stale (m_init false)
+             [EAttempt (AOk false); ETerm TDrop; EAttempt (AFail false false); EStaleReader;
+              EAttempt (AOk false); EAttempt (AOk false)] in
+  m_sessions s = 3 /\ m_post s = 3 /\ length (m_live s) = 2.
+Proof. repeat split; reflexivity. Qed.
+
+(* hunt-C13/f1: the old receiver ends the session the manager has just made *)
+Lemma old_receiver_refuted :
+  let s := m_run with_old_recv (m_init false)
+             [EAttempt (AOk false); ETerm TStreamError; EAttempt (AOk false); EOldReceiver;
+              EAttempt (AOk false); EAttempt (AOk false)] in
+  m_selfclosed s = 1 /\ m_sessions s = 4 /\ m_loops (m_run with_old_recv (m_init false)
+             [EAttempt (AOk false); ETerm TStreamError; EAttempt (AOk false); EOldReceiver]) = 2.
+Proof. repeat split; reflexivity. Qed.
+
+(* hunt-C18: a receiver without a session *)
+Lemma hook_start_refuted :
+  let s := m_run with_hook_start (m_init false)
+             [EAttempt (AOk false); ETerm TDrop; EAttempt (AHookFail false); EAttempt (AOk false)] in
+  m_recv s = 3 /\ m_sessions s = 2 /\ length (m_live s) = 2.
+Proof. repeat split; reflexivity. Qed.
+
+(* audit A1/c1: a session, and its PostConnect, after Run has returned *)
+Lemma stop_leak_refuted :
+  let s := m_run with_stop_leak (m_init false)
+             [EAttempt (AOk false); ETerm TDrop; EAttempt ARefused; ETerm TStop; EAttempt (AOk false)] in
+  m_phase s = MReturned /\ m_late s = 1 /\ m_sessions s = 2 /\ m_post s = 2.
+Proof. repeat split; reflexivity. Qed.
+
+(* D11: no receiver on the new session: its loss is noticed by nobody, no further session *)
+Lemma no_receiver_refuted :
+  let s := m_run with_no_recv (m_init false)
+             [EAttempt (AOk false); ETerm TDrop; EAttempt (AOk false); ETerm TDrop; EAttempt (AOk false)] in
+  m_recv s = 1 /\ m_sessions s = 2 /\ m_loops s = 0 /\ m_phase s = MRetry.
+Proof. repeat split; reflexivity. Qed.
+
+(* ---- the same, for every state the code as it is can reach ---- *)
+Lemma reach_counts sm es :
+  let s := m_run repaired (m_init sm) es in
+  m_post s = m_sessions s /\ m_recv s = m_sessions s /\ m_selfclosed s = 0 /\ m_late s = 0 /\
+  m_resumed s <= m_sessions s /\ m_sessions s <= m_estab s /\ m_estab s <= m_conns s.
+Proof.
+  cbn zeta. destruct (reachable_inv sm es) as (H1 & H2 & H3 & H4 & H5 & H6 & H7 & _). repeat split; assumption.
+Qed.
+
+Lemma reach_one_loop sm es :
+  let s := m_run repaired (m_init sm) es in
+  m_loops s <= 1 /\ (m_loops s = 1 <-> m_phase s = MRetry).
+Proof.
+  cbn zeta. destruct (reachable_inv sm es) as (_ & _ & _ & _ & _ & _ & _ & Hp).
+  destruct (m_phase _); decompose [and] Hp; split; try lia; split; intros; try discriminate; try lia; auto.
+Qed.
+
+Lemma reach_live sm es :
+  let s := m_run repaired (m_init sm) es in
+  m_live s = match m_phase s with MUp => [m_conns s] | _ => [] end.
+Proof.
+  cbn zeta. destruct (reachable_inv sm es) as (_ & _ & _ & _ & _ & _ & _ & Hp).
+  destruct (m_phase _); decompose [and] Hp; assumption.
+Qed.
+
+Lemma one_session_per_loss_reach sm es0 t noise g :
+  let s := m_run repaired (m_init sm) es0 in
+  m_phase s = MUp -> is_loss t = true -> forallb is_noise noise = true ->
+  let s' := m_run repaired s (ETerm t :: noise ++ [EAttempt (AOk g)]) in
+  m_phase s' = MUp /\ m_loops s' = 0 /\ m_live s' = [m_conns s'] /\
+  m_sessions s' = S (m_sessions s) /\ m_post s' = S (m_post s) /\ m_recv s' = S (m_recv s) /\
+  m_resumed s' = (if m_sm s && held_after (m_sm s) (m_held s) noise && g
+                  then S (m_resumed s) else m_resumed s).
+Proof.
+  intros s P Ht Hn. apply (one_session_per_loss s t noise g (reachable_inv sm es0) P Ht Hn).
+Qed.
+
+Lemma permanent_stops_reach sm es0 d es :
+  let s := m_run repaired (m_init sm) es0 in
   m_phase s = MRetry ->
-  let s' := m_run s (EAttempt AFailPermanent :: es) in
-  m_sessions s' = m_sessions s /\ m_post s' = m_post s /\ (m_phase s' = MDead \/ m_phase s' = MReturned).
-Proof.
-  intros P. cbn zeta. cbn [m_run fold_left].
-  assert (E : m_step s (EAttempt AFailPermanent) = phase s MDead) by (unfold m_step; rewrite P; reflexivity).
-  rewrite E. apply (dead_stays es (phase s MDead)). left. reflexivity.
-Qed.
-
-Lemma stop_returns s :
-  m_phase s = MUp \/ m_phase s = MDead -> m_phase (m_step s (ETerm TStop)) = MReturned.
-Proof. intros [P|P]; unfold m_step; rewrite P; reflexivity. Qed.
+  let s' := m_run repaired s (EAttempt (AFail true d) :: es) in
+  m_sessions s' = m_sessions s /\ m_post s' = m_post s /\ m_recv s' = m_recv s /\
+  m_conns s' = S (m_conns s) /\ m_estab s' = m_estab s /\
+  (m_phase s' = MDead \/ m_phase s' = MReturned).
+Proof. intros s P. apply permanent_stops; [apply reachable_inv|exact P]. Qed.
